@@ -41,6 +41,8 @@ impl Server {
 
         boxed_read.unwrap();
         let request : &[u8] = &buffer;
+        #[cfg(rws_verif)]
+        crate::verif_hooks::point("server.process_request.after_read");
 
         // let raw_request = String::from_utf8(Vec::from(request)).unwrap();
         // println!("\n\n______{}______\n\n", raw_request);
@@ -62,11 +64,15 @@ impl Server {
 
         let request: Request = boxed_request.unwrap();
         let (response, request) = App::handle_request(request);
+        #[cfg(rws_verif)]
+        crate::verif_hooks::point("server.process_request.after_handle");
 
 
         let log_request_response = Log::request_response(&request, &response, &peer_addr);
         println!("{}", log_request_response);
         let raw_response = Response::generate_response(response, request);
+        #[cfg(rws_verif)]
+        crate::verif_hooks::point("server.process_request.after_generate");
 
         let boxed_stream = stream.write(raw_response.borrow());
         if boxed_stream.is_ok() {
@@ -129,6 +135,8 @@ impl Server {
 
         boxed_read.unwrap();
         let request : &[u8] = &buffer;
+        #[cfg(rws_verif)]
+        crate::verif_hooks::point("server.process.after_read");
 
         // let raw_request = String::from_utf8(Vec::from(request)).unwrap();
         // println!("\n\n______{}______\n\n", raw_request);
@@ -152,8 +160,12 @@ impl Server {
 
 
         let request: Request = boxed_request.unwrap();
+        #[cfg(rws_verif)]
+        crate::verif_hooks::point("server.process.after_parse");
 
         let app_processing = app.execute(&request, &connection);
+        #[cfg(rws_verif)]
+        crate::verif_hooks::point("server.process.after_execute");
         if app_processing.is_err() {
             let message = app_processing.as_ref().err().unwrap().to_string();
             let response = Server::bad_request_response(message);
@@ -175,6 +187,8 @@ impl Server {
         println!("{}", log_request_response);
 
         let raw_response = Response::generate_response(response, request);
+        #[cfg(rws_verif)]
+        crate::verif_hooks::point("server.process.after_generate");
 
         let boxed_stream = stream.write(raw_response.borrow());
         if boxed_stream.is_ok() {
